@@ -5,6 +5,7 @@ package props
 import (
 	"bytes"
 	"os"
+	"strconv"
 	"strings"
 	"testing"
 
@@ -17,6 +18,28 @@ type CaseC01 struct {
 	Opts Opts   `json:"opts"`
 	Doc  *XElem `json:"doc"`
 	Lead string `json:"lead,omitempty"` // whitespace / prolog before the root
+	Fan  int    `json:"fan,omitempty"`  // > 0: the root element gets that many more child elements ("any fan-out"; expanded at check time)
+}
+
+// withFan returns the document with Fan generated children appended to the root: rows with a number as text, two
+// alternating names (two lists in document order) and now and then an attribute.
+func (c CaseC01) withFan() *XElem {
+	if c.Fan <= 0 {
+		return c.Doc
+	}
+	root := *c.Doc
+	root.Items = append([]XItem(nil), c.Doc.Items...)
+	for i := 0; i < c.Fan; i++ {
+		el := &XElem{Local: "row", Items: []XItem{{Kind: kText, Text: strconv.Itoa(i)}}}
+		if i%3 == 2 {
+			el.Local = "Cell"
+		}
+		if i%1000 == 7 {
+			el.Attrs = []XAttr{{Local: "n", Value: "v"}}
+		}
+		root.Items = append(root.Items, XItem{Kind: kElem, El: el})
+	}
+	return &root
 }
 
 func init() { register("C01", checkC01) }
@@ -29,6 +52,9 @@ func genC01(t *rapid.T) CaseC01 {
 	}
 	c := CaseC01{Opts: o, Doc: g.Elem(t, rapid.IntRange(1, 4).Draw(t, "depth"))}
 	c.Lead = rapid.SampledFrom([]string{"", "", "\n", "<?xml version=\"1.0\" encoding=\"UTF-8\"?>\n", "<!-- lead -->", "  "}).Draw(t, "lead")
+	if rapid.IntRange(0, 399).Draw(t, "fan") == 237 { // a value rapid has no bias towards (it favours the ends of a range)
+		c.Fan = rapid.SampledFrom([]int{255, 1000, 4096, 10001, 10001, 20000}).Draw(t, "fanout")
+	}
 	return c
 }
 
@@ -84,6 +110,7 @@ func checkC01(c CaseC01, info *Info) *Failure {
 		info.Skip = "empty case"
 		return nil
 	}
+	c.Doc = c.withFan()
 	doc := c.Lead + c.Doc.String()
 	k, v := refDecode(c.Doc, c.Opts)
 	want := map[string]interface{}{k: v}
@@ -118,6 +145,12 @@ func checkC01(c CaseC01, info *Info) *Failure {
 	m2, err := mxj.NewMapXmlReader(strings.NewReader(doc), c.Opts.Cast)
 	if f := cmp("NewMapXmlReader", m2, err); f != nil {
 		return f
+	}
+	if c.Fan >= 4096 {
+		// very wide documents: the two main entry points (and x2j above) only
+		info.Class("an element with 4096 or more children")
+		info.NonTrivial(true)
+		return nil
 	}
 	m3, err := mxj.NewMapXmlReader(oneByteReader{strings.NewReader(doc)}, c.Opts.Cast)
 	if f := cmp("NewMapXmlReader(non-ByteReader)", m3, err); f != nil {
@@ -175,7 +208,12 @@ func checkC01(c CaseC01, info *Info) *Failure {
 		}
 	}
 
-	inter, coll, tb := docClasses(c.Doc, c.Opts)
+	var inter, coll, tb bool
+	if c.Fan == 0 { // the class computation is cubic in the number of siblings
+		inter, coll, tb = docClasses(c.Doc, c.Opts)
+	} else {
+		inter = true
+	}
 	n := c.Doc.countElems()
 	def := defaultOpts()
 	_, dv := refDecode(c.Doc, def)
